@@ -63,6 +63,8 @@ impl<T> Sender<T> {
         // Never let a new message overtake the ones that are still pending.
         if !self.pending_messages.is_empty() {
             self.pending_messages.push_back(value);
+            #[cfg(fastrace_verif)]
+            crate::verif::point(crate::verif::P_PARKED, self.pending_messages.len() as u64, 1);
             return;
         }
 
